@@ -35,9 +35,10 @@ Qed.
 
 Theorem kw_wrap_total cekLen :
   0 <= cekLen ->
-  kw_wrap 16 cekLen = if cekLen mod 8 =? 0 then Ok (cekLen + 8) else err.
+  kw_wrap 16 cekLen = if (cekLen =? 0) || negb (cekLen mod 8 =? 0) then err else Ok (cekLen + 8).
 Proof.
-  intros H0. unfold kw_wrap. destruct (cekLen mod 8 =? 0) eqn:E; cbn [negb]; [|reflexivity].
+  intros H0. unfold kw_wrap. destruct (cekLen =? 0) eqn:E0; cbn [orb]; [reflexivity|].
+  destruct (cekLen mod 8 =? 0) eqn:E; cbn [negb]; [|reflexivity].
   assert (Hm : cekLen mod 8 = 0) by lia.
   pose proof (Z.div_mod cekLen 8 ltac:(lia)) as D.
   set (n := cekLen / 8) in *. assert (Hn : 0 <= n) by (subst n; apply Z.div_pos; lia).
@@ -53,7 +54,7 @@ Proof.
 Qed.
 
 Theorem kw_wrap_no_panic cekLen : 0 <= cekLen -> kw_wrap 16 cekLen <> Panic.
-Proof. intros H. rewrite kw_wrap_total by exact H. destruct (cekLen mod 8 =? 0); discriminate. Qed.
+Proof. intros H. rewrite kw_wrap_total by exact H. destruct ((cekLen =? 0) || negb (cekLen mod 8 =? 0)); discriminate. Qed.
 
 Lemma sumZ_repeat x n : sumZ (repeat x n) = x * Z.of_nat n.
 Proof. induction n as [|k IH]; cbn [repeat sumZ fold_right]; [lia|]. unfold sumZ in IH. rewrite IH. lia. Qed.
